@@ -134,14 +134,14 @@ def run_bounded(tier, seed):
     f = big_joined_read_case()
     n = 6
     if not f:
-        r = Fixtures().replay('dataReceived', 'split-independence', {'seed': seed, 'trials': 3000 if tier == 'thorough' else 400})
-        n += 3000 if tier == 'thorough' else 400
+        r = Fixtures().replay('dataReceived', 'split-independence', {'seed': seed, 'trials': 20000 if tier == 'thorough' else 400})
+        n += 20000 if tier == 'thorough' else 400
         f = r['detail'] if r['reproduced'] else None
         inp = r.get('input')
     else:
         inp = {'case': 'handshake end joined with binary data'}
     return {'tool': 'split-independence on the real protocol object: the same stream under random cuts delivers the same messages; joined handshake / large reads',
-            'bound': '%d random streams of 1-5 frames (both byte orders, CR/LF bytes in bodies, with and without a handshake in front) under up to 4 random cuts; handshake end joined with 1 / 40 / 700 messages; 17 KB handshake lines' % (3000 if tier == 'thorough' else 400),
+            'bound': '%d random streams of 1-5 frames (both byte orders, CR/LF bytes in bodies, with and without a handshake in front) under up to 4 random cuts; handshake end joined with 1 / 40 / 700 messages; 17 KB handshake lines' % (20000 if tier == 'thorough' else 400),
             'evaluations': n, 'failures': [] if not f else [{'function': 'txdbus.protocol.BasicDBusProtocol.dataReceived', 'clause': 'split-independence', 'input': inp, 'detail': f}]}
 
 
